@@ -301,7 +301,12 @@ def make_attrs(spec):
             attrs_[fname] = attr.ib(default=attr.Factory(_factory(default)), repr=rep)
         else:
             d = default
-            attrs_[fname] = attr.ib(default=attr.Factory(lambda self, d=d: _factory(d)(), takes_self=True), repr=rep)
+            first = spec['fields'][0][0]
+            if first != fname and spec['fields'][0][1] == 'none':
+                # the default is DERIVED from another field of the same instance: differs from instance to instance
+                attrs_[fname] = attr.ib(default=attr.Factory(lambda self, first=first: ('derived', getattr(self, first)), takes_self=True), repr=rep)
+            else:
+                attrs_[fname] = attr.ib(default=attr.Factory(lambda self, d=d: _factory(d)(), takes_self=True), repr=rep)
     cls = attr.make_class(spec['name'], attrs_, frozen=spec['frozen'], slots=spec['slots'], kw_only=spec['kw_only'], eq=spec['eq'])
     cls.__module__ = __name__
     globals()[spec['name']] = cls
@@ -356,7 +361,7 @@ def instances(spec, cls, rng, quick):
         visible = []
         for i, (fname, kind, default, rep) in enumerate(fs):
             if i in at_default:
-                if rng.random() < 0.35:
+                if rng.random() < 0.35 and not (kind == 'takes_self' and fs[0][0] != fname and fs[0][1] == 'none'):
                     # pass the default explicitly as an equal but distinct object: still "does not differ from the default"
                     kwargs[fname] = equal_copy(default)
                 continue
@@ -367,7 +372,10 @@ def instances(spec, cls, rng, quick):
             if not rep:
                 continue
             cur = getattr(inst, fname)
-            if kind == 'none' or cur != default:
+            dflt = default
+            if kind == 'takes_self' and fs[0][0] != fname and fs[0][1] == 'none':
+                dflt = ('derived', getattr(inst, fs[0][0]))
+            if kind == 'none' or cur != dflt:
                 visible.append(fname)
         yield inst, kwargs, visible
 
